@@ -228,6 +228,10 @@ def oracle_joint(lines):
     if errs['A'] or errs['B']:
         if any(e == 'crash' for e in errs['A'] + errs['B']):
             return [('C01:exception-escaped', 'an exception escaped a public call in a joint run')], 'error'
+        # conclusion of C01_only_deadline_errors_schedule: errors, if any, come with a missed deadline
+        allerrs = errs['A'] + errs['B']
+        if not any(e in ('err:FlowControlTimeoutError', 'err:ConsecutiveFrameTimeoutError') for e in allerrs):
+            return [('C01:error-without-missed-deadline', 'errors %s reported on a reliable link although no deadline error was reported' % sorted(set(allerrs)))], 'error'
         return [], 'error'
     fails = []
     for src, dst in (('A', 'B'), ('B', 'A')):
